@@ -32,3 +32,13 @@ MUTANTS["C20"] = [
     ("boundary_thresh", "lentil/util.py", "    x = (x > threshold)\n", "    x = (x >= threshold)\n"),
     ("circle_shift_axis", "lentil/shape.py", "np.square(rr - shift[0]) + np.square(cc - shift[1])", "np.square(rr - shift[1]) + np.square(cc - shift[0])"),
 ]
+MUTANTS["C02"] = [
+    ("alpha_col_uses_du0", "lentil/propagate.py", "(dx[1]*du[1])/(wavelength*z*oversample))", "(dx[1]*du[0])/(wavelength*z*oversample))"),
+    ("prop_shift_sign", "lentil/propagate.py", "prop_shift = np.array(prop_center) - np.array(intersect_center)", "prop_shift = np.array(intersect_center) - np.array(prop_center)"),
+    ("mask_shift_even", "lentil/propagate.py", "rmin_extent + shape_extent[0]//2, cmin_extent + shape_extent[1]//2", "rmin_extent + (shape_extent[0]-1)//2, cmin_extent + shape_extent[1]//2"),
+    ("field_offset_dropped", "lentil/propagate.py", "offset=field.offset, unitary=True)", "offset=(0, 0), unitary=True)"),
+    ("out_pixelscale_no_os", "lentil/propagate.py", "    out = Wavefront.empty(wavelength=wavefront.wavelength,\n                          pixelscale = du/oversample,", "    out = Wavefront.empty(wavelength=wavefront.wavelength,\n                          pixelscale = du,"),
+    ("mask_bbox_col", "lentil/propagate.py", "    return rmax - rmin + 1, cmax - cmin + 1\n\n\ndef _mask_shift", "    return rmax - rmin + 1, cmax - cmin\n\n\ndef _mask_shift"),
+    ("array_extent_center", "lentil/extent.py", "    cmin = int(-(shape[1]//2) + shift[1])", "    cmin = int(-((shape[1]-1)//2) + shift[1])"),
+    ("phasor_sign", "lentil/plane.py", "amp*np.exp(2*np.pi*1j*opd/wavefront.wavelength)", "amp*np.exp(-2*np.pi*1j*opd/wavefront.wavelength)"),
+]
